@@ -401,6 +401,7 @@ COMBINATORS = {
     "std::result::Result::map": ("std::result::Result", "Ok", "wrap:Ok", "Err"),
     "std::result::Result::and_then": ("std::result::Result", "Ok", "raw", "Err"),
     "std::result::Result::map_err": ("std::result::Result", "Err", "wrap:Err", "Ok"),
+    "std::option::Option::map_or": ("std::option::Option", "Some", "raw", "default"),
 }
 VARIANTS = {"std::option::Option": [[0, "None"], [1, "Some"]], "std::result::Result": [[0, "Ok"], [1, "Err"]]}
 
@@ -544,6 +545,13 @@ class Desugarer:
         t = blk["term"]
         enum, takes, hit, miss = COMBINATORS[t["callee"]["key"]]
         args = t["args"]
+        default_op = None
+        if miss == "default":
+            # x.map_or(default, closure)
+            if len(args) != 3:
+                return False
+            default_op = args[1]
+            args = [args[0], args[2]]
         if len(args) != 2 or t["target"] is None:
             return False
         ck = self._closure_of(c, args[1])
@@ -606,7 +614,9 @@ class Desugarer:
                 rv_other = {"k": "aggregate", "agg": "adt", "adt": "std::result::Result", "variant": "Ok", "fields": ["0"], "ops": [_mv(n_x, *_payload_proj("Some", enum))]}
         else:
             rv_after = rv_hit
-            if miss_variant == "None":
+            if default_op is not None:
+                rv_other = {"k": "use", "op": default_op}
+            elif miss_variant == "None":
                 rv_other = agg("None", None)
             else:
                 rv_other = agg(miss_variant, _mv(n_x, *_payload_proj(miss_variant, enum)))
